@@ -6,7 +6,10 @@ mod monitor;
 mod net;
 mod prog;
 mod props;
+mod peer;
 mod t1;
+mod t2;
+mod t2x;
 mod tape;
 mod trace;
 mod wire;
